@@ -24,6 +24,8 @@ use std::time::{Duration, Instant};
 // own build and are stripped; they have no run-time meaning.)
 #[allow(dead_code, missing_docs, unused_imports, clippy::all)]
 mod real_loom {
+    // std APIs that loom 0.7 does not offer, expressed through the ones it does
+    use crate::loomext::CondvarExt as _;
     include!(concat!(env!("OUT_DIR"), "/lock_loom.rs"));
 }
 
@@ -908,4 +910,26 @@ fn main() {
 /// What `std::cell::` in the lock source is re-bound to (see build.rs).
 pub mod stdcell {
     pub use std::cell::{Cell, RefCell, UnsafeCell};
+}
+
+/// `std::sync` methods missing from loom 0.7, built from loom's own primitives (so every wait
+/// and wake-up stays a modelled operation).
+pub mod loomext {
+    use loom::sync::{Condvar, MutexGuard};
+    use std::sync::LockResult;
+
+    pub trait CondvarExt {
+        /// `std::sync::Condvar::wait_while`: wait until `condition` is false.
+        fn wait_while<'a, T, F: FnMut(&mut T) -> bool>(&self, guard: MutexGuard<'a, T>, condition: F) -> LockResult<MutexGuard<'a, T>>;
+    }
+
+    impl CondvarExt for Condvar {
+        fn wait_while<'a, T, F: FnMut(&mut T) -> bool>(&self, guard: MutexGuard<'a, T>, mut condition: F) -> LockResult<MutexGuard<'a, T>> {
+            let mut guard = guard;
+            while condition(&mut *guard) {
+                guard = self.wait(guard)?;
+            }
+            Ok(guard)
+        }
+    }
 }
